@@ -296,3 +296,59 @@ Example rule_example :
   stop_now (mkStopper 8 2 0 0) 4 [5; 4; 3; 3; 3; 0; 0; 0]%Q = Some true
   /\ stop_now (mkStopper 8 2 0 0) 3 [5; 4; 3; 2; 0; 0; 0; 0]%Q = Some false.
 Proof. split; vm_compute; reflexivity. Qed.
+
+(* --- optim_flat around the loop: validation model present or not, restore or not --- *)
+Lemma hist_at_max_iter_only s1 s2 loss k :
+  max_iter s1 = max_iter s2 -> hist_at s1 loss k = hist_at s2 loss k.
+Proof.
+  intros E. induction k as [|k IH]; cbn [hist_at].
+  - unfold hist0. rewrite E. reflexivity.
+  - rewrite IH. reflexivity.
+Qed.
+
+Theorem optim_flat_spec s hv restore loss :
+  (1 <= patience s)%nat -> (patience s <= max_iter s)%nat ->
+  exists (j b : nat),
+    optim_flat_model s hv restore loss
+      = Some (mkOut j (Z.of_nat b) (if restore then Z.of_nat b else Z.of_nat j) (hist_at s loss j))
+    /\ (j < max_iter s)%nat
+    /\ (hv = false -> j = (max_iter s - 1)%nat)
+    /\ (hv = true -> rule s j (hist_at s loss j) = true
+                     /\ forall k, (k < j)%nat -> rule s k (hist_at s loss k) = false)
+    /\ (j + 1 - patience s <= b <= j)%nat
+    /\ (forall k, (j + 1 - patience s <= k <= j)%nat ->
+          (nth b (hist_at s loss j) 0%Q <= nth k (hist_at s loss j) 0%Q)%Q)
+    /\ (forall k, (j + 1 - patience s <= k < b)%nat ->
+          (nth b (hist_at s loss j) 0%Q < nth k (hist_at s loss j) 0%Q)%Q).
+Proof.
+  intros Hp1 Hp2. unfold optim_flat_model.
+  assert (Hmi : max_iter (loop_stopper s hv) = max_iter s) by (destruct hv; reflexivity).
+  assert (Hq1 : (1 <= patience (loop_stopper s hv))%nat) by (destruct hv; cbn; lia).
+  assert (Hq2 : (patience (loop_stopper s hv) <= max_iter (loop_stopper s hv))%nat)
+    by (destruct hv; cbn; lia).
+  destruct (loop_stops_at_first (loop_stopper s hv) loss Hq1 Hq2) as [j [Hrun [Hj [Hrule Hnb]]]].
+  rewrite Hrun. rewrite Hmi in Hj.
+  rewrite (hist_at_max_iter_only (loop_stopper s hv) s loss j Hmi) in *.
+  (* the user's patience fits into the history up to j *)
+  assert (Hpj : (patience s <= S j)%nat).
+  { destruct hv; cbn [loop_stopper] in Hrule.
+    - unfold rule in Hrule. apply orb_true_iff in Hrule. destruct Hrule as [H|H].
+      + apply Z.leb_le in H. lia.
+      + apply andb_true_iff in H. destruct H as [H _]. apply Nat.ltb_lt in H. lia.
+    - unfold rule in Hrule. cbn [patience max_iter] in Hrule.
+      apply orb_true_iff in Hrule. destruct Hrule as [H|H].
+      + apply Z.leb_le in H. lia.
+      + apply andb_true_iff in H. destruct H as [H _]. apply Nat.ltb_lt in H. lia. }
+  destruct (best_is_argmin s j (hist_at s loss j) Hp1 Hpj) as [b [Hwb [Hb [Hmin Hfirst]]]].
+  { rewrite hist_at_length. exact Hj. }
+  rewrite Hwb. exists j, b. split; [reflexivity|]. split; [exact Hj|].
+  split.
+  - intros ->. cbn [loop_stopper] in Hrule. unfold rule in Hrule. cbn [patience max_iter] in Hrule.
+    apply orb_true_iff in Hrule. destruct Hrule as [H|H].
+    + apply Z.leb_le in H. lia.
+    + apply andb_true_iff in H. destruct H as [H _]. apply Nat.ltb_lt in H. lia.
+  - split.
+    + intros ->. cbn [loop_stopper] in Hrule, Hnb. split; [exact Hrule|].
+      intros k Hk. exact (Hnb k Hk).
+    + split; [exact Hb|]. split; [exact Hmin|exact Hfirst].
+Qed.
